@@ -163,9 +163,11 @@ func (c *Case) Exec(t *eng.T) {
 	pkgRanges := pkgVarRanges()
 	var curRoots map[string]any // roots of the execution that is running (for the re-scan of the shared set)
 	rescan := func() [][2]uintptr { return append(deep.Ranges(curRoots), pkgRanges...) }
+	var curWorld *world
 	mk := func(judge func([]any) string) func() ([]func() any, [][2]uintptr, func([]any) string) {
 		return func() ([]func() any, [][2]uintptr, func([]any) string) {
 			w, _ := c.newWorld()
+			curWorld = w
 			var bodies []func() any
 			for _, o := range c.Ops {
 				bodies = append(bodies, w.op(o))
@@ -215,6 +217,16 @@ func (c *Case) Exec(t *eng.T) {
 		for i, r := range res {
 			if fmt.Sprint(r) != solo[i] {
 				return fmt.Sprintf("thread %d (%s) returned %v; running alone it returns %s", i, c.Ops[i], r, solo[i])
+			}
+		}
+		// what the concurrent executions left behind: the same operations once more, one after the other, on the
+		// template and set the threads have just used (the scheduler is not active here)
+		for i, o := range c.Ops {
+			if strings.HasPrefix(o, "cleancache") || strings.HasPrefix(o, "fromcache") || strings.HasPrefix(o, "compile") {
+				continue // their result legitimately depends on what the other thread did to the cache
+			}
+			if got := fmt.Sprint(curWorld.op(o)()); got != solo[i] {
+				return fmt.Sprintf("after the concurrent executions, %s executed alone on the same template returns %v; on a fresh template it returns %s", o, got, solo[i])
 			}
 		}
 		return ""
